@@ -430,6 +430,9 @@ func c06Engine() *Engine {
 		ds := damages(r, wal, tgs, tier)
 		res.Count("tgs", int64(len(tgs)))
 		for di, d := range ds {
+			if pastDeadline(res) {
+				break
+			}
 			img := base.Clone()
 			img.SetFileBytes(walPath, d.bytes)
 			if verboseLog {
